@@ -200,9 +200,12 @@ func CheckStringTypeChanges(diffs []TypeDiff, type1, type2 *spec.SchemaProps) []
 			diffs = addTypeDiff(diffs, TypeDiff{Change: ChangedType, Description: fmt.Sprintf("Pattern Changed:%s->%s", type1.Pattern, type2.Pattern)})
 		}
 		if type1.Type[0] == StringType {
-			if len(type1.Enum) > 0 {
+			if len(type1.Enum) > 0 && len(type2.Enum) > 0 {
 				enumDiffs := CompareEnums(type1.Enum, type2.Enum)
 				diffs = append(diffs, enumDiffs...)
+			} else if len(type1.Enum) > 0 {
+				// the enum is gone altogether: every value is accepted again
+				diffs = append(diffs, TypeDiff{Change: DeletedConstraint, Description: "Enum"})
 			} else if len(type2.Enum) > 0 {
 				// an enum where there was none restricts the accepted values
 				diffs = append(diffs, TypeDiff{Change: AddedConstraint, Description: "Enum"})
